@@ -68,6 +68,17 @@ def templates(tier):
     T.append(("def tfun(a: bool, p: Parameter[Qlist[bool, 3]]) -> bool:\n    c = a\n    for x in p:\n        c = c ^ x\n    return c\n", {"p": LB}))
     T.append(("def tfun(a: Qint[2], p: Parameter[Qlist[bool, 3]]) -> bool:\n    return p[a] if a < 3 else p[0]\n"[:0] +
               "def tfun(a: bool, b: bool, p: Parameter[Qlist[bool, 3]]) -> bool:\n    return all(p) or (a and p[0]) or (b and p[2])\n", {"p": LB}))
+    # matrix parameters (non-square, so that row and column counts cannot be confused), constant and run-time indices
+    M23 = [[[1, 2, 3], [0, 3, 1]], [[0, 0, 1], [2, 2, 2]]]
+    M32 = [[[1, 2], [3, 0], [2, 2]], [[0, 1], [1, 0], [3, 3]]]
+    MB23 = [[[True, False, True], [False, False, True]], [[False, True, True], [True, True, False]]]
+    for dom, sh in ((M23, "2, 3"), (M32, "3, 2")):
+        T.append(("def tfun(i: Qint[2], j: Qint[2], p: Parameter[Qmatrix[Qint[2], %s]]) -> Qint[2]:\n    return p[i][j]\n" % sh, {"p": dom}))
+        T.append(("def tfun(a: Qint[2], p: Parameter[Qmatrix[Qint[2], %s]]) -> Qint[4]:\n    return p[0][1] + p[1][0] + a\n" % sh, {"p": dom}))
+        T.append(("def tfun(a: Qint[2], p: Parameter[Qmatrix[Qint[2], %s]]) -> Qint[4]:\n    c = a\n    for r in p:\n        for x in r:\n            c = c ^ x\n    return c\n" % sh, {"p": dom}))
+        T.append(("def tfun(j: Qint[2], p: Parameter[Qmatrix[Qint[2], %s]]) -> Qint[2]:\n    return p[1][j]\n" % sh, {"p": dom}))
+    T.append(("def tfun(i: bool, j: Qint[2], p: Parameter[Qmatrix[bool, 2, 3]]) -> bool:\n    x = 1 if i else 0\n    return p[x][j]\n", {"p": MB23}))
+    T.append(("def tfun(a: bool, p: Parameter[Qmatrix[bool, 2, 3]]) -> bool:\n    return (len(p) == 2) and (len(p[0]) == 3) and (a or p[1][2])\n", {"p": MB23}))
     # chars and fixed
     T.append(("def tfun(a: Qchar, p: Parameter[Qchar]) -> bool:\n    return a == p\n", {"p": ["a", "z", "0"]}))
     T.append(("def tfun(a: Qint[2], p: Parameter[Qchar]) -> Qchar:\n    return p if a == 1 else 'x'\n", {"p": ["a", "b"]}))
@@ -83,6 +94,12 @@ def templates(tier):
     T.append(("def tfun(a: Qint[2], p: Parameter[Qint[2]], q: Parameter[Qlist[Qint[2], 2]]) -> Qint[2]:\n    return q[p] + a\n", {"p": [0, 1], "q": L2}))
     T.append(("def tfun(p: Parameter[Qint[2]], q: Parameter[Qint[2]]) -> Qint[4]:\n    return p + q\n", {"p": QI2, "q": QI2}))
     T.append(("def tfun(p: Parameter[bool]) -> bool:\n    return not p\n", {"p": BO}))
+    # parameterised callers of a previously compiled function (defs=[g]): every bind re-translates with the same definitions
+    G1 = "def gfun(x: Qint[2]) -> Qint[2]:\n    return x + 1\n"
+    G2 = "def hfun(x: bool, y: bool) -> bool:\n    return x and not y\n"
+    T.append(("def tfun(a: Qint[2], p: Parameter[Qint[2]]) -> Qint[2]:\n    return gfun(a) + p\n", {"p": QI2}, G1))
+    T.append(("def tfun(a: Qint[2], p: Parameter[Qint[2]]) -> Qint[2]:\n    c = a ^ p\n    return gfun(c)\n", {"p": QI2}, G1))
+    T.append(("def tfun(a: bool, b: bool, p: Parameter[bool]) -> bool:\n    return hfun(a, p) or hfun(p, b)\n", {"p": BO}, G2))
     return T
 
 
@@ -102,12 +119,14 @@ def cases(shard):
     if shard["k"] == "keywords":
         yield {"k": "keywords", "tier": tier, "key": "C08 keyword errors"}
         return
-    src, dom = templates(tier)[shard["ti"]]
+    tpl = templates(tier)[shard["ti"]]
+    src, dom = tpl[0], tpl[1]
+    callee = tpl[2] if len(tpl) > 2 else None
     names = sorted(dom)
     if shard["k"] == "bind":
         for vals in itertools.product(*[dom[n] for n in names]):
             for order in itertools.permutations(range(len(names))):
-                yield {"k": "bind", "src": src, "profile": shard["profile"], "names": [names[i] for i in order],
+                yield {"k": "bind", "src": src, "callee": callee, "profile": shard["profile"], "names": [names[i] for i in order],
                        "values": [vals[i] for i in order],
                        "key": "bind %s|%s|%s" % (shard["profile"], ",".join("%s=%r" % (names[i], vals[i]) for i in order), src)}
     else:
@@ -115,7 +134,7 @@ def cases(shard):
         vs = [allv[0], allv[len(allv) // 2], allv[-1]]
         for L in (2, 3):
             for seq in itertools.product(range(3), repeat=L):
-                yield {"k": "history", "src": src, "names": names, "vals": [list(v) for v in vs], "seq": list(seq),
+                yield {"k": "history", "src": src, "callee": callee, "names": names, "vals": [list(v) for v in vs], "seq": list(seq),
                        "key": "history %s|%s|%s" % (list(seq), [list(v) for v in vs], src)}
 
 
@@ -164,14 +183,20 @@ def run_case(case):
             out.update({"status": "violation", "detail": {"bad": bad}, "digest": H.h12([b["why"] for b in bad])})
         return out
     src = case["src"]
+    callee = case.get("callee")
+
+    def mk(**kw):
+        if callee:
+            return qlassf(src, to_compile=False, defs=[H.translate(callee, "default")], **kw)
+        return qlassf(src, to_compile=False, **kw)
     try:
-        pr = pyref.Program(src)
+        pr = pyref.Program((callee or "") + src, fname="tfun")
     except pyref.Unsupported as e:
         return {"status": "unjudged", "rows": 0, "nontrivial": False, "outcome": "unjudged"}
     if k == "bind":
         prof = H.PROFILES[case["profile"]]
         try:
-            u = qlassf(src, to_compile=False, bool_optimizer=prof)
+            u = mk(bool_optimizer=prof)
         except Exception as e:
             return {"status": "rejected", "rows": 0, "nontrivial": False, "outcome": "rej:" + H.exc_name(e)}
         if not hasattr(u, "bind") or not hasattr(u, "fun_ast"):
@@ -211,11 +236,11 @@ def run_case(case):
     try:
         fresh = []
         for v in vals:
-            u0 = qlassf(src, to_compile=False)
+            u0 = mk()
             fresh.append(fingerprint(u0.bind(**dict(zip(names, v)))))
     except Exception as e:
         return {"status": "rejected", "rows": 0, "nontrivial": False, "outcome": "rej:" + H.exc_name(e)}
-    u = qlassf(src, to_compile=False)
+    u = mk()
     before = ast.dump(u.fun_ast)
     bad = []
     for step, i in enumerate(case["seq"]):
